@@ -54,6 +54,8 @@ def replay_once(exe, prop, caseid, timeout=120):
         return r.returncode, r.stdout
     except subprocess.TimeoutExpired:
         return 124, "timeout"
+    except OSError as e:   # e.g. a case id too long for a command line: cannot be confirmed, reported as unreproduced
+        return 0, "cannot start the replay: %s" % e
 
 
 def aggregate(outdir):
